@@ -3,6 +3,7 @@ package pngmeta
 import (
 	"fmt"
 	"github.com/mandykoh/prism/meta/binary"
+	"io"
 )
 
 type chunkHeader struct {
@@ -23,8 +24,8 @@ func readChunkHeader(r binary.Reader) (chunkHeader, error) {
 		return ch, err
 	}
 
-	bytesRead, err := r.Read(ch.ChunkType[:])
-	if err != nil {
+	bytesRead, err := io.ReadFull(r, ch.ChunkType[:])
+	if err != nil && err != io.ErrUnexpectedEOF {
 		return ch, err
 	}
 	if bytesRead != len(ch.ChunkType) {
